@@ -15,6 +15,7 @@ ASSUMPTIONS = [
     "resting LIMIT/STOP sells are reduce-only (what Broker.reduce_position_at submits); MARKET sells are drawn either way",
     "MARKET orders are executed in the same operation that submits them (the simulator flushes them in the same step)",
     "the attached strategy layer cancels everything resting when the position closes; the reference is fed those observed cancellations",
+    "'sell exactly the free base must be accepted' (ladder / flatten operations) is only demanded while every order quantity so far has at most 10 significant digits: with 16-digit quantities even decimal-exact bookkeeping rounds to the nearest double at every step",
 ]
 TECHNIQUE = "model-based testing: generated op histories against a cash-account reference fed from observed order events"
 MIN_NONTRIVIAL = {'quick': 400, 'thorough': 8000}
@@ -37,10 +38,22 @@ def run_history(cfg, ops):
     b = Bench('spot', cfg['fee'], cfg['balance'], symbols=syms, prices=prices)
     model = SpotAccount(cfg['balance'], cfg['fee'])
     vios, flags, applied = [], set(), []
+    _order = b.order
+
+    def order_(sym_, side_, typ_, qty_, price_, reduce_only=False):
+        note_qty(qty_)
+        return _order(sym_, side_, typ_, qty_, price_, reduce_only=reduce_only)
+    b.order = order_
     seen = 0
     live = []  # order objects still active by our knowledge
     cancelled_side = set()
     ended = False
+    exact = [True]  # every order quantity so far has at most 10 significant decimal digits
+
+    def note_qty(q):
+        r_ = repr(float(q))
+        if 'e' in r_ or len(r_.replace('.', '').replace('-', '').strip('0')) > 10:
+            exact[0] = False
 
     def feed():
         nonlocal seen
@@ -177,6 +190,43 @@ def run_history(cfg, ops):
                     feed()
                 if ended:
                     break
+            elif kind == 'ladder':
+                # a laddered exit: 2-3 resting sells of ONE kind that together sell exactly the free base (decimal split)
+                from decimal import Decimal
+                s = syms[op[1] % len(syms)]
+                typ, parts = op[2], op[3]
+                free = Decimal(repr(float(b.exchange.assets[s.split('-')[0]]))) - Decimal(repr(float(model.resting_sells(s, typ))))
+                if free <= 0:
+                    continue
+                applied.append(op)
+                what = f'ladder-sell-{typ}'
+                cur = b.positions[s].current_price
+                qs, rest = [], free
+                for f_ in parts[:-1]:
+                    q_ = (free * Decimal(repr(f_))).quantize(Decimal('0.001'))
+                    if 0 < q_ < rest:
+                        qs.append(q_)
+                        rest -= q_
+                qs.append(rest)
+                import math as _m
+                fq = [float(x) for x in qs]
+                while sum(Decimal(repr(x)) for x in fq) > free and fq[-1] > 0:
+                    fq[-1] = _m.nextafter(fq[-1], 0.0)  # the double nearest to the remainder may lie above it
+                qs = fq
+                for i_, q_ in enumerate(qs):
+                    price = round(cur + 3 + i_, 1) if typ == 'LIMIT' else max(0.1, round(cur - 3 - i_, 1))
+                    try:
+                        live.append(b.order(s, 'sell', typ, float(q_), price, reduce_only=True))
+                    except InsufficientBalance:
+                        flags.add('rejection')
+                        if exact[0]:
+                            vios.append((f'C04:{what}:rejected-although-the-ladder-sums-to-the-free-base', f'ladder {[float(x) for x in qs]} of free base {float(free)!r}: row {i_} rejected'))
+                        ended = True
+                        break
+                    feed()
+                flags.add('ladder')
+                if ended:
+                    break
             elif kind == 'flatten':
                 # consolidate: cancel every resting sell of the symbol, then sell exactly what the account reports as free
                 s = syms[op[1] % len(syms)]
@@ -205,7 +255,7 @@ def run_history(cfg, ops):
                     o2 = b.order(s, 'sell', typ, qty, price, reduce_only=True)
                 except InsufficientBalance:
                     flags.add('rejection')
-                    if abs(lhs - rhs) <= TOL * max(1, abs(rhs)) or lhs < rhs:
+                    if exact[0] and (abs(lhs - rhs) <= TOL * max(1, abs(rhs)) or lhs < rhs):
                         vios.append((f'C04:{what}:rejected-although-nothing-else-rests', f'after cancelling {len(mine)} resting sells, a sell of the whole reported base {qty!r} was rejected (reference: needs {float(lhs)!r}, has {float(rhs)!r})'))
                     break
                 live.append(o2)
@@ -332,7 +382,9 @@ def run_shard(acc, shard, nshards, seed, tier):
     modify = st.tuples(st.just('modify'), st.integers(0, 9), st.sampled_from(['same', 'bigger', 'max', 'max+released', 'half']))
     bracket = st.tuples(st.just('bracket'), st.integers(0, 1), st.sampled_from([0.25, 0.5, 0.6, 1.0]), st.sampled_from([0.5, 0.999, 1.0, 1.0]))
     flatten = st.tuples(st.just('flatten'), st.integers(0, 1), st.sampled_from(['MARKET', 'LIMIT', 'STOP']))
-    op = st.one_of(submit, submit, submit, modify, modify, bracket, flatten, st.tuples(st.just('execute'), st.integers(0, 9)), st.tuples(st.just('execute'), st.integers(0, 9)), st.tuples(st.just('cancel'), st.integers(0, 9)), st.tuples(st.just('cancel'), st.integers(0, 9)),
+    ladder = st.tuples(st.just('ladder'), st.integers(0, 1), st.sampled_from(['LIMIT', 'STOP']),
+                       st.sampled_from([(0.3, 0.7), (0.5, 0.5), (0.3, 0.3, 0.4), (0.1, 0.9), (0.7, 0.3), (0.25, 0.5, 0.25)]))
+    op = st.one_of(submit, submit, submit, modify, modify, bracket, flatten, flatten, ladder, ladder, st.tuples(st.just('execute'), st.integers(0, 9)), st.tuples(st.just('execute'), st.integers(0, 9)), st.tuples(st.just('cancel'), st.integers(0, 9)), st.tuples(st.just('cancel'), st.integers(0, 9)),
                    st.tuples(st.just('execute'), st.integers(0, 9)), st.tuples(st.just('price'), st.integers(0, 1), st.integers(-20, 20)))
     cfgs = st.fixed_dictionaries(dict(fee=st.sampled_from([0.0, 0.001, 0.00075, 0.0075]), balance=st.sampled_from([10_000.0, 1_000.0, 99.99]),
                                        nsym=st.integers(1, 2)))
